@@ -177,6 +177,10 @@ type tempBucket struct {
 
 // writeTuple performs a buffered write of a KV-tuple.
 func (b *tempBucket) writeTuple(key []byte, value [36]byte) (err error) {
+	if len(key) > math.MaxUint16 {
+		// the key length is stored in 16 bits
+		return fmt.Errorf("key is too long: %d bytes (max %d)", len(key), math.MaxUint16)
+	}
 	b.records++
 	var static [38]byte
 	binary.LittleEndian.PutUint16(static[0:2], uint16(len(key)))
